@@ -40,7 +40,7 @@ class RecvMonitor : public Monitor {
   bool corrupted = false;  // something other than a clean telegram was seen before (for the signature only)
   int reportsSeen = 0;
 
-  void onDeliver(uint8_t v, int) override {
+  void onDeliver(uint8_t v, int, bool) override {
     Telegram t;
     if (p.symbol(v, &t)) expected.push_back(t);
   }
@@ -71,15 +71,341 @@ class RecvMonitor : public Monitor {
     }
     expected.pop_front();
   }
-  void onQuiescent() override {
+  void onQuiescent(bool) override {
     if (failed || expected.empty()) return;
     failed = true;
     sink->add(std::string("C01/missing-report/") + telKind(expected.front().master), "valid telegram " + expected.front().str() + " on the wire was not reported");
   }
-  void onEnd() override { onQuiescent(); }
+  void onEnd() override { onQuiescent(false); }
   void fingerprint(std::string* o) const override {
     p.fingerprint(o);
     o->push_back((char)(failed | (expected.size() << 1)));
+  }
+};
+
+
+// ---------------------------------------------------------------------------------------------
+// C02 + C03: wire format / truthful result of active requests, and entitlement of every write.
+// Rule families are enabled separately (c02 / c03); signatures are prefixed accordingly.
+class ActiveMonitor : public Monitor {
+ public:
+  ActiveMonitor(VSink* s, const Scenario& scn, bool c02rules, bool c03rules)
+      : sink(s), sc(scn), c02(c02rules), c03(c03rules), pending(scn.reqs.size(), 0) {}
+  VSink* sink;
+  const Scenario& sc;
+  bool c02, c03;
+  enum Ph { NONE, ARB, ARMED, AUTOSYN, SENDING, WAIT_ACK, RESP, SEND_ACK, ACK_ECHO, SEND_SYN, SYN_ECHO, FAILED_CLOSING, DISTURBED };
+  Ph autosynFrom = NONE;
+  bool lossWinnerMaster = false, lossTraffic = false;
+  Ph ph = NONE;
+  std::vector<int> pending;   // per request: in flight
+  std::vector<int> cands;     // requests that may be the one being sent
+  uint8_t arbAddr = 0;
+  size_t wpos = 0;            // symbols of the current master transmission written so far
+  bool repeat = false;        // second transmission of the master part (starts with QQ)
+  bool echoPending = false;
+  uint8_t lastW = 0;
+  int attemptS = 1;
+  // response parsing
+  Bytes resp;
+  uint8_t rcrc = 0;
+  bool resc = false, rcrcPos = false, rGood = false;
+  bool valid = false, notified = false, reported = false;
+  int doneReq = -1;
+  // entitlement
+  bool silentUntilSyn = false;
+  int synsSinceLoss = -1;
+  bool loneSyn = false;
+  int silenceMs = 0;
+  bool generator = false;
+  bool failed = false;
+
+  void fail(const std::string& sig, const std::string& detail) { if (!failed) sink->add(sig, detail); failed = true; }
+  void v2(const std::string& rule, const std::string& d) { if (c02) fail("C02/" + rule, d); }
+  void v3(const std::string& rule, const std::string& d) { if (c03) fail("C03/" + rule, d); }
+
+  Bytes expectSeq(int r) const {
+    Bytes m = sc.reqs[r].master;
+    Bytes w = ref::wirePart(m);
+    if (!repeat) w.erase(w.begin());  // QQ was the arbitration symbol
+    return w;
+  }
+  static std::string hx(uint8_t v) { char b[4]; snprintf(b, sizeof(b), "%02x", v); return b; }
+  std::string phName() const {
+    static const char* n[] = {"idle", "arbitration-echo", "armed", "autosyn-echo", "sending", "wait-ack", "response", "send-ack", "ack-echo", "send-syn", "syn-echo", "failed-closing", "disturbed"};
+    return n[ph];
+  }
+  void exchangeFailed(bool silent) {
+    ph = NONE; valid = false; cands.clear(); echoPending = false;
+    if (silent) silentUntilSyn = true;
+  }
+  uint8_t dstOf() const { return cands.empty() ? 0 : sc.reqs[cands[0]].master[1]; }
+
+  void onEnqueue(int r) override { pending[r] = 1; }
+
+  void onArbStart(uint8_t addr) override {  // enhanced START frame
+    if (failed) return;
+    if (addr == ref::SYN) { if (ph == ARMED) ph = NONE; return; }
+    if (sc.readOnly) { v3("readonly-write", "START(" + hx(addr) + ") in read-only mode"); return; }
+    std::vector<int> c;
+    for (size_t i = 0; i < pending.size(); i++) if (pending[i] && sc.reqs[i].master[0] == addr) c.push_back((int)i);
+    if (c.empty()) { v3("arbitration-without-request", "START(" + hx(addr) + ") although no request with that source is pending"); return; }
+    if (ph != NONE && ph != ARMED) { v3("arbitration-during-exchange/" + phName(), "START(" + hx(addr) + ") while " + phName()); return; }
+    if (synsSinceLoss >= 0 && synsSinceLoss < 1) v3(std::string("arbitration-too-early-after-loss/enh/") + (lossWinnerMaster ? "winner-master/" : "winner-other/") + (lossTraffic ? "traffic" : "address-only"), "START issued before any SYN after the lost arbitration");
+    ph = ARMED; arbAddr = addr; cands = c;
+  }
+
+  void onWrite(uint8_t v) override {
+    if (failed) return;
+    if (sc.readOnly) { v3("readonly-write", "symbol " + hx(v) + " written in read-only mode"); return; }
+    if ((ph == NONE || ph == ARMED) && v == ref::SYN && sc.genSyn) {
+      int need = generator ? 40 : (int)(10 * ref::masterNumber(sc.own) + 51);
+      if (silenceMs < need) v3("autosyn-early", "AUTO-SYN after only " + std::to_string(silenceMs) + " ms of silence (interval " + std::to_string(need) + ")");
+      autosynFrom = ph; ph = AUTOSYN; echoPending = true; lastW = v;
+      return;
+    }
+    switch (ph) {
+      case DISTURBED: return;  // a foreign symbol interrupted the own telegram: not fixed by the statement until the next SYN
+      case NONE: {
+        std::vector<int> c;
+        for (size_t i = 0; i < pending.size(); i++) if (pending[i] && sc.reqs[i].master[0] == v) c.push_back((int)i);
+        if (!sc.enhanced && loneSyn && !c.empty()) {
+          if (synsSinceLoss >= 0 && synsSinceLoss < 2) v3(std::string("arbitration-too-early-after-loss/plain/") + (lossWinnerMaster ? "winner-master/" : "winner-other/") + (lossTraffic ? "traffic" : "address-only"), "address " + hx(v) + " sent at the first SYN after a lost arbitration");
+          ph = ARB; arbAddr = v; cands = c; echoPending = true; lastW = v;
+          return;
+        }
+        std::string why = silentUntilSyn ? "after-error-before-syn" : (loneSyn ? (c.empty() ? "after-syn-without-request" : "other") : "not-after-syn");
+        v3("unentitled-write/" + why, "symbol " + hx(v) + " written while idle (" + why + ")");
+        return;
+      }
+      case SENDING: {
+        if (echoPending) { v3("write-before-echo", "symbol " + hx(v) + " written before the previous echo was checked"); return; }
+        std::vector<int> keep;
+        for (int r : cands) { Bytes e = expectSeq(r); if (wpos < e.size() && e[wpos] == v) keep.push_back(r); }
+        if (keep.empty()) {
+          Bytes e = expectSeq(cands[0]);
+          std::string d = "symbol #" + std::to_string(wpos) + " of the transmission is " + hx(v) + ", expected " + (wpos < e.size() ? hx(e[wpos]) : std::string("nothing")) + " (request " + ref::hex(sc.reqs[cands[0]].master) + ")";
+          v2(std::string("wrong-symbol/") + (repeat ? "repeat" : "first") + (wpos + 1 >= e.size() ? "/crc" : "/data"), d);
+          v3("unentitled-write/not-next-symbol", d);
+          return;
+        }
+        cands = keep; wpos++; echoPending = true; lastW = v;
+        return;
+      }
+      case SEND_ACK: {
+        if (rGood) {
+          if (v != ref::ACK) { v2("good-response-not-acked", "response with correct CRC answered with " + hx(v)); v3("unentitled-write/wrong-ack", "wrote " + hx(v) + " instead of ACK"); return; }
+        } else {
+          if (v == ref::ACK) { v2("bad-crc-acked", "response with wrong CRC was ACKed"); return; }
+          if (attemptS == 1 && v != ref::NAK) { v2("bad-crc-not-naked", "response with wrong CRC answered with " + hx(v) + " instead of NAK"); v3("unentitled-write/wrong-ack", "wrote " + hx(v)); return; }
+          if (attemptS == 2 && v != ref::NAK && v != ref::SYN) { v3("unentitled-write/wrong-ack", "wrote " + hx(v) + " after the second bad response"); return; }
+          if (v == ref::SYN) { ph = SYN_ECHO; echoPending = true; lastW = v; return; }
+        }
+        ph = ACK_ECHO; echoPending = true; lastW = v;
+        return;
+      }
+      case SEND_SYN:
+      case FAILED_CLOSING:
+        if (v != ref::SYN) { v2("no-closing-syn", "wrote " + hx(v) + " instead of the closing SYN"); v3("unentitled-write/after-exchange", "wrote " + hx(v) + " after the exchange"); return; }
+        ph = SYN_ECHO; echoPending = true; lastW = v;
+        return;
+      default:
+        v3("unentitled-write/while-" + phName(), "symbol " + hx(v) + " written while " + phName());
+        v2("write-while-" + phName(), "symbol " + hx(v) + " written while " + phName());
+        return;
+    }
+  }
+
+  void respReset() { resp.clear(); rcrc = 0; resc = false; rcrcPos = false; rGood = false; }
+
+  void onDeliver(uint8_t v, int kind, bool more) override {
+    if (failed) return;
+    silenceMs = 0;
+    bool syn = (v == ref::SYN && kind == 0);
+    Ph was = ph;
+    switch (ph) {
+      case NONE:
+        break;
+      case ARMED:
+        if (kind == 1 && v == arbAddr) {
+          if (cands.empty()) { v3("arbitration-won-without-request", "the adapter won an arbitration for " + hx(v) + " that was not cancelled although its request is gone"); ph = NONE; break; }
+          ph = SENDING; wpos = 0; repeat = false; echoPending = false; valid = false; notified = false; reported = false;
+        } else if (kind == 2 || kind == 1) { exchangeFailed(true); synsSinceLoss = v == ref::SYN ? -1 : 0; lossWinnerMaster = ref::isMaster(v); lossTraffic = false; }
+        break;
+      case ARB:
+        echoPending = false;
+        if (v == arbAddr && kind != 2) {
+          if (cands.empty()) { ph = NONE; break; }
+          ph = SENDING; wpos = 0; repeat = false; valid = false; notified = false; reported = false;
+        }
+        else { exchangeFailed(!syn); synsSinceLoss = syn ? -1 : 0; lossWinnerMaster = ref::isMaster(v); lossTraffic = false; }  // a SYN in the arbitration slot is no collision: lock rule not applicable
+        break;
+      case AUTOSYN:
+        echoPending = false;
+        if (syn) generator = true;
+        ph = autosynFrom;
+        break;
+      case SENDING:
+        if (echoPending && v == lastW && kind == 0) {
+          echoPending = false;
+          Bytes e = expectSeq(cands[0]);
+          if (wpos >= e.size()) {
+            if (dstOf() == ref::BROADCAST) { valid = true; ph = SEND_SYN; }
+            else ph = WAIT_ACK;
+          }
+        } else if (!echoPending) {
+          exchangeFailed(false); ph = DISTURBED;  // foreign symbol while it was ebusd's turn
+        } else {
+          exchangeFailed(true);
+        }
+        break;
+      case DISTURBED:
+        break;
+      case WAIT_ACK:
+        if (v == ref::ACK && kind == 0) {
+          if (ref::isMaster(dstOf())) { valid = true; ph = SEND_SYN; }
+          else { ph = RESP; attemptS = 1; respReset(); }
+        } else if (v == ref::NAK && kind == 0 && !repeat) {
+          ph = SENDING; repeat = true; wpos = 0; echoPending = false;
+        } else {
+          exchangeFailed(!syn);
+        }
+        break;
+      case RESP: {
+        if (syn) { exchangeFailed(false); break; }
+        uint8_t u = v;
+        if (resc) {
+          if (v > 1) { exchangeFailed(true); break; }
+          u = v == 0 ? ref::ESC : ref::SYN;
+          if (!rcrcPos) rcrc = ref::crcStep(rcrc, v);
+          resc = false;
+        } else if (v == ref::ESC) {
+          resc = true;
+          if (!rcrcPos) rcrc = ref::crcStep(rcrc, v);
+          break;
+        } else if (!rcrcPos) {
+          rcrc = ref::crcStep(rcrc, v);
+        }
+        if (rcrcPos) { rGood = (u == rcrc); ph = SEND_ACK; break; }
+        resp.push_back(u);
+        if (resp.size() == (size_t)resp[0] + 1) rcrcPos = true;
+        break;
+      }
+      case SEND_ACK:   // ebusd should have written its ACK/NAK instead of reading on
+      case SEND_SYN:
+        // handled in onQuiescent (reading instead of writing); a symbol arriving here ends the exchange
+        exchangeFailed(!syn);
+        break;
+      case ACK_ECHO:
+        echoPending = false;
+        if (v == lastW && kind == 0) {
+          if (lastW == ref::ACK) { valid = true; ph = SEND_SYN; }
+          else if (attemptS == 1) { ph = RESP; attemptS = 2; respReset(); }
+          else ph = FAILED_CLOSING;
+        } else {
+          exchangeFailed(true);
+        }
+        break;
+      case SYN_ECHO:
+        echoPending = false;
+        ph = NONE; cands.clear();
+        break;
+      case FAILED_CLOSING:
+        exchangeFailed(!syn);
+        break;
+    }
+    if (syn && ph == DISTURBED) ph = NONE;
+    if (synsSinceLoss >= 0 && !syn && was != ARB && was != ARMED) lossTraffic = true;
+    if (syn) {
+      silentUntilSyn = false;
+      if (synsSinceLoss >= 0 && !(was == ARB)) synsSinceLoss++;
+      if (synsSinceLoss > 8) synsSinceLoss = -1;
+    }
+    loneSyn = syn && !more && ph == NONE;
+    (void)was;
+  }
+
+  void onTimeout(int ms) override {
+    if (failed) return;
+    silenceMs += ms;
+    if (silenceMs > 100000) silenceMs = 100000;
+    loneSyn = false;
+    if (ph == ARMED) return;  // the adapter keeps the request armed
+    if (ph == DISTURBED) { ph = NONE; return; }
+    if (ph != NONE) exchangeFailed(true);
+  }
+  void onIoError(bool) override {
+    if (failed) return;
+    loneSyn = false;
+    exchangeFailed(true);
+  }
+  void onReopen() override { ph = NONE; cands.clear(); loneSyn = false; }
+
+  void onReport(int dir, const Bytes& m, const Bytes& s) override {
+    if (failed || dir != 1) return;
+    if (!valid || cands.empty()) { v2("false-sent-report", "reported " + ref::hex(m) + " as sent although the exchange was not valid (" + phName() + ")"); return; }
+    bool ok = false;
+    for (int r : cands) if (sc.reqs[r].master == m) ok = true;
+    if (!ok) { v2("sent-report-content", "reported sent message " + ref::hex(m) + " differs from the request"); return; }
+    bool slaveDst = dstOf() != ref::BROADCAST && !ref::isMaster(dstOf());
+    if (slaveDst && s != resp) { v2("sent-report-content", "reported response " + ref::hex(s) + " instead of " + ref::hex(resp)); return; }
+    reported = true;
+  }
+
+  void onNotify(int r, int result, const Bytes& slave, bool restart) override {
+    if (!restart) pending[r] = 0;
+    if (failed) return;
+    bool mine = false;
+    for (int c : cands) if (c == r) mine = true;
+    bool inExchange = mine && ph != NONE && ph != ARB && ph != ARMED;
+    if (result == 0) {
+      if (!(inExchange && valid)) { v2(std::string("false-success/") + (inExchange ? phName() : "not-in-exchange"), "request " + ref::hex(sc.reqs[r].master) + " completed successfully although the exchange was not valid"); return; }
+      bool slaveDst = dstOf() != ref::BROADCAST && !ref::isMaster(dstOf());
+      if (slaveDst && slave != resp) { v2("wrong-response-data", "request completed with response " + ref::hex(slave) + " instead of " + ref::hex(resp)); return; }
+      if (!reported) { v2("missing-sent-report", "successful request " + ref::hex(sc.reqs[r].master) + " was not reported as sent message"); return; }
+      notified = true;
+      cands.assign(1, r);
+    } else if (inExchange && valid) {
+      v2("false-error", "request " + ref::hex(sc.reqs[r].master) + " completed with error " + std::to_string(result) + " although the exchange was valid");
+    }
+    if (mine && (ph == ARB || ph == ARMED) && !restart) {
+      // a candidate is gone: a later win may have nothing to send
+      std::vector<int> keep;
+      for (int c : cands) if (c != r) keep.push_back(c);
+      cands = keep;
+    }
+  }
+
+  void onQuiescent(bool buffered) override {
+    if (failed) return;
+    if (buffered) return;  // further symbols were already on the bus: ebusd had no slot to transmit in
+    if (ph == SEND_SYN && valid && !notified) { v2("missing-success", "valid exchange for " + ref::hex(sc.reqs[cands[0]].master) + " was not completed successfully"); return; }
+    if (ph == SEND_SYN) { v2("no-closing-syn", "ebusd listens instead of sending the closing SYN"); exchangeFailed(false); return; }
+    if (ph == SEND_ACK) {
+      if (rGood) v2("good-response-not-acked", "ebusd listens instead of acknowledging a correct response");
+      else if (attemptS == 1) v2("bad-crc-not-naked/silent", "ebusd listens instead of sending NAK for a response with wrong CRC (request " + ref::hex(sc.reqs[cands[0]].master) + ")");
+      exchangeFailed(false);
+      return;
+    }
+    if (ph == SENDING && !echoPending) {
+      // ebusd stopped transmitting in the middle of its telegram
+      v2("transmission-stopped", "ebusd listens instead of sending symbol #" + std::to_string(wpos));
+      exchangeFailed(false);
+    }
+    if (ph == FAILED_CLOSING) exchangeFailed(false);
+  }
+
+  void fingerprint(std::string* o) const override {
+    o->push_back((char)ph); o->push_back((char)(wpos));
+    o->push_back((char)(repeat | (echoPending << 1) | (valid << 2) | (notified << 3) | (reported << 4) | (silentUntilSyn << 5) | (loneSyn << 6) | (generator << 7)));
+    o->push_back((char)(failed | (resc << 1) | (rcrcPos << 2) | (rGood << 3) | (attemptS << 4)));
+    o->push_back((char)(autosynFrom | (lossWinnerMaster << 4) | (lossTraffic << 5)));
+    o->push_back((char)lastW); o->push_back((char)arbAddr); o->push_back((char)(synsSinceLoss + 1)); o->push_back((char)rcrc);
+    int sm = silenceMs >= 40 ? (silenceMs >= (int)(10 * ref::masterNumber(sc.own) + 51) ? 2 : 1) : 0;
+    o->push_back((char)sm);
+    o->push_back((char)resp.size()); o->append((const char*)resp.data(), resp.size());
+    for (int p : pending) o->push_back((char)p);
+    o->push_back((char)cands.size()); for (int c : cands) o->push_back((char)c);
   }
 };
 
